@@ -272,11 +272,19 @@ def run_trace_family(ctx, fam, driver):
         if not res['accepted']:
             # reproduce before reporting: sequential drivers are deterministic given the seed
             if fam.get('deterministic', True):
-                tf2 = tf + '.again'
-                run_driver(ctx, driver, fam['profile'], tf2, seed, args=args, timeout=fam.get('driver_timeout', 1500))
-                res2 = validate(ctx, spec, tf2, enforce, consts=fam.get('consts', ''), timeout=fam.get('tlc_timeout', 1500))
-                if res2['accepted']:
-                    raise Infra('rejection of %s seed %d did not reproduce (line %s, %s)' % (fam['profile'], seed, res['line'], res['failed']))
+                # the engine itself has seed-independent nondeterminism (Go map iteration order in Merge, pool reuse),
+                # so up to three re-runs are made; a rejection that never shows again is reported as exit 2, not as a verdict
+                again = False
+                for attempt in range(3):
+                    tf2 = tf + '.again'
+                    run_driver(ctx, driver, fam['profile'], tf2, seed, args=args, timeout=fam.get('driver_timeout', 1500), env=env)
+                    res2 = validate(ctx, spec, tf2, enforce, consts=fam.get('consts', ''), timeout=fam.get('tlc_timeout', 1500))
+                    if not res2['accepted']:
+                        again = True
+                        break
+                if not again:
+                    save_replay(ctx, tf, res, fam['profile'], seed, extra=dict(spec=spec, enforce=enforce, consts=fam.get('consts', ''), note='did not reproduce in 3 re-runs'))
+                    raise Infra('rejection of %s seed %d did not reproduce in 3 re-runs (line %s, %s); the rejected trace is saved under replays/' % (fam['profile'], seed, res['line'], res['failed']))
             path = save_replay(ctx, tf, res, fam['profile'], seed, extra=dict(spec=spec, enforce=enforce, consts=fam.get('consts', '')))
             try:
                 with open(d['stderr'], errors='replace') as f:
